@@ -89,6 +89,20 @@ def patched(*triples):
                 setattr(mod, name, old)
 
 
+@contextlib.contextmanager
+def real_torch():
+    """temporarily restore the real torch functions (replays run on real tensors inside a patched region)."""
+    saved = []
+    try:
+        for (mod, name), real in _REAL.items():
+            saved.append((mod, name, getattr(mod, name)))
+            setattr(mod, name, real)
+        yield
+    finally:
+        for mod, name, cur in saved:
+            setattr(mod, name, cur)
+
+
 def torch_patches(random=True, exact_linspace=True):
     """Patches applied while the code under analysis runs."""
     real_as_tensor = _save(torch, "as_tensor")
